@@ -10,7 +10,7 @@ import math
 import random
 
 from ..lib import NMEA2000Decoder
-from .. import refdb, gen, project
+from .. import refdb, gen, project, wire
 
 ID = "C01"
 LEVEL = "exploration"
@@ -203,15 +203,45 @@ def classify_exception(d, exp, exc):
     return f"decode-raised:{type(exc).__name__}", None
 
 
+FRAMEWISE = {"n": 0, "dec": None}
+
+
 def judge_case(dbx, dec, d, label, payload, nb, acc, texts=None):
     want = dbx.select(d.pgn, payload)
     line = line_for(d.pgn, payload, nb)
     acc.count("decode_calls")
-    try:
-        msg = dec.decode_basic_string(line, already_combined=True)
-        exc = None
-    except Exception as e:      # noqa: BLE001 - any failure is an observable outcome
-        msg, exc = None, e
+    FRAMEWISE["n"] += 1
+    if d.type == "Fast" and 9 <= nb <= 223 and FRAMEWISE["n"] % 4 == 0:
+        # the same payload frame by frame, on a decoder that lives for the whole shard, right after ANOTHER message of the same
+        # stream was abandoned half-way (every bit of it the opposite of this payload's): what comes back is this payload
+        if FRAMEWISE["dec"] is None:
+            FRAMEWISE["dec"] = NMEA2000Decoder()
+        fdec = FRAMEWISE["dec"]
+        q = FRAMEWISE["n"] % 8
+        ident = wire.can_id(3, d.pgn, 1, 255)
+        other = (~payload) & ((1 << (8 * nb)) - 1)
+        use_usb = FRAMEWISE["n"] % 8 >= 4
+        try:
+            fr_other = wire.fast_frames(other.to_bytes(nb, "little"), q, 0xFF)
+            for f_ in fr_other[:1 + (FRAMEWISE["n"] // 8) % max(1, len(fr_other) - 1)]:
+                try:
+                    fdec.decode_usb(wire.usb_frame(ident, f_)) if use_usb else fdec.decode_tcp(wire.ebyte_frame(ident, f_))
+                except Exception:  # noqa: BLE001
+                    pass
+            msg = None
+            for f_ in wire.fast_frames(payload.to_bytes(nb, "little"), (q + 1) % 8, 0xFF):
+                msg = fdec.decode_usb(wire.usb_frame(ident, f_)) if use_usb else fdec.decode_tcp(wire.ebyte_frame(ident, f_))
+            exc = None
+        except Exception as e:      # noqa: BLE001
+            msg, exc = None, e
+        acc.count("payloads_decoded_frame_by_frame_after_an_abandoned_message")
+        label = label + " [frame by frame after an abandoned message]"
+    else:
+        try:
+            msg = dec.decode_basic_string(line, already_combined=True)
+            exc = None
+        except Exception as e:      # noqa: BLE001 - any failure is an observable outcome
+            msg, exc = None, e
     witness = {"definition": d.id, "pgn": d.pgn, "label": label, "payload_hex": payload.to_bytes(nb, "little").hex(),
                "line": line if nb <= 40 else line[:200] + "..."}
     if want is None:
